@@ -793,7 +793,9 @@ class Engine:
         # Only a PROVED goal may be used afterwards.  Assuming a refuted goal would silently restrict - possibly empty - the
         # rest of the path, and every later obligation on it would be discharged vacuously (this is how an open known
         # finding once hid a surviving mutant: DESIGN 8.6).
-        if status == 'proved':
+        if status == 'proved' and not (qinst._contains_quant(goal) and not (z3.is_quantifier(goal) and goal.is_forall())):
+            # (a proved goal with a nested quantifier is not added: assuming less is sound, and such a formula in the path
+            # condition defeats the instantiation-based decision of later quantified obligations)
             p.add(goal)
         return status == 'proved'
 
